@@ -375,6 +375,7 @@ type Contracts struct {
 	Guards  []*Guard
 	Files   []string
 	Globals map[string]string
+	ConstBytes map[string][]byte // pkgpath.Name -> contents of a constant package-level byte slice
 }
 
 var clauseKw = regexp.MustCompile(`^(requires|ensures|modifies|loop|end|inline-calls|int-overflow-checked|inline|trusted|pure-effects|noalloc|unroll|reveal)\b`)
@@ -410,7 +411,7 @@ func parseClause(rest, file string, line int) *Clause {
 
 // loadContracts reads every verif_*.go file of the given package directories.
 func loadContracts(dirs map[string]string) *Contracts {
-	cs := &Contracts{Specs: map[string]*FuncSpec{}, Pures: map[string]*PureFn{}, Globals: map[string]string{}}
+	cs := &Contracts{Specs: map[string]*FuncSpec{}, Pures: map[string]*PureFn{}, Globals: map[string]string{}, ConstBytes: map[string][]byte{}}
 	var pkgs []string
 	for p := range dirs {
 		pkgs = append(pkgs, p)
@@ -514,6 +515,20 @@ func (cs *Contracts) parseFile(pkg, file, data string) {
 			}
 			name, params := parseHead(rest)
 			cs.Pures[name] = &PureFn{Name: name, Params: params, NArgs: len(params), Bool: isBool}
+		case strings.HasPrefix(s, "global "):
+			// global NAME = bytes(0, 0, 1): a package-level []byte that is never reassigned or written
+			rest := strings.TrimSpace(s[7:])
+			eq := strings.Index(rest, "=")
+			name := strings.TrimSpace(rest[:eq])
+			val := strings.TrimSpace(rest[eq+1:])
+			val = strings.TrimSuffix(strings.TrimPrefix(val, "bytes("), ")")
+			var bs []byte
+			for _, f := range strings.Split(val, ",") {
+				var b int
+				fmt.Sscan(strings.TrimSpace(f), &b)
+				bs = append(bs, byte(b))
+			}
+			cs.ConstBytes[pkg+"."+name] = bs
 		case strings.HasPrefix(s, "property "):
 			// property C02 functions: a, b, c
 			rest := strings.TrimSpace(s[9:])
